@@ -236,6 +236,12 @@ def length_of(t: tuple) -> tuple:
         return const(len(a[1]))
     if a is not None and a[0] == "seq" and isinstance(a[2], tuple) and a[2][0] == "range":
         return sub(a[2][2], a[2][1])
+    if a is not None and a[0] == "sub" and len(a[2]) == 1 and isinstance(a[2][0], tuple) and a[2][0] and a[2][0][0] == "slice" \
+            and a[2][0][1] == "None" and a[2][0][3] == "None" and isinstance(a[2][0][2], tuple):
+        # len(x[:u]) = u when 0 <= u <= len(x): u = len(x) // c with c >= 1
+        u = single_atom(a[2][0][2])
+        if u is not None and u[0] == "floordiv" and u[1] == length_of(a[1]) and is_const(u[2]) is not None and is_const(u[2]) >= 1:
+            return a[2][0][2]
     return atom_poly(("call", "len", (t,)))
 
 
@@ -290,6 +296,11 @@ def upd(base: tuple, idx: tuple, val: tuple) -> tuple:
         b0, updates = a[1], dict(a[2])
     else:
         b0, updates = _strip_seq_conv(base), {}
+    try:
+        if idx == neg(length_of(b0)):
+            idx = ZERO          # x[-len(x)] is x[0]
+    except Exception:
+        pass
     updates[idx] = val
     return atom_poly(("upd", b0, tuple(sorted(updates.items(), key=lambda kv: _key(kv[0])))))
 
@@ -642,6 +653,11 @@ class Translator:
         return mk_bool("And", tuple(mk_cmp(type(o).__name__, terms[i], terms[i + 1]) for i, o in enumerate(n.ops)))
 
     def t_BoolOp(self, n):
+        # `x or []` / `x or {}` is a VALUE default (x if truthy, else a fresh container), not a truth value: whether it equals
+        # `d.get(k, [])` depends on what the table holds - not modelled
+        if isinstance(n.op, ast.Or) and any((isinstance(v, (ast.List, ast.Dict, ast.Tuple, ast.Set)) and not getattr(v, "elts", getattr(v, "keys", None)))
+                                            or (isinstance(v, ast.Call) and astx.txt(v.func) in ("list", "dict", "set", "tuple") and not v.args and not v.keywords) for v in n.values[1:]):
+            return atom_poly(("opaque", f"{astx.txt(n)[:50]} (value default)"))
         return mk_bool(type(n.op).__name__, tuple(self.tr(v) for v in n.values))
 
     def t_IfExp(self, n):
@@ -664,6 +680,19 @@ class Translator:
             return power(self.tr(args[0]), self.tr(args[1]))
         if name in IDENT_CALLS and len(args) == 1 and not kw:
             return self.tr(args[0])
+        if name == "sorted" and len(args) == 1 and not kw:
+            # itertools.product of ascending pools (ranges) is already emitted in ascending lexicographic order, all tuples
+            # distinct: sorting it changes nothing
+            v = self.tr(args[0])
+            a = single_atom(v)
+            if a is not None and a[0] == "call" and a[1] in ("product", "itertools.product") and len(a[2]) == 2 and a[2][1] == ("star",):
+                pools = single_atom(a[2][0])
+                if pools is not None and pools[0] == "seq":
+                    pool = single_atom(pools[1])
+                    while pool is not None and pool[0] == "call" and pool[1] in ("list", "tuple") and len(pool[2]) == 1:
+                        pool = single_atom(pool[2][0])
+                    if pool is not None and pool[0] == "seq" and isinstance(pool[2], tuple) and pool[2][0] == "range" and single_atom(pool[1]) == ("sym", f"#{pool[3]}"):
+                        return atom_poly(("call", "list", (v,)))
         if name in FACT_NAMES and len(args) == 1 and not kw:
             return atom_poly(("call", "factorial", (self.tr(args[0]),)))
         if name in ("comb", "math.comb", "scipy.special.comb") and len(args) == 2 and not kw and is_const(self.tr(args[1])) == 2:
